@@ -57,6 +57,8 @@ type wire struct {
 	stallDur   time.Duration
 	notify     chan struct{}
 
+	origAll       []byte // stream as written
+	cmpN          int
 	firstDiff     int // first original offset at which delivered != written (-1 none)
 	firstDiffWire int // the same position in delivered-stream coordinates
 	fired         map[string]int
@@ -81,10 +83,28 @@ func (w *wire) broadcast() {
 	w.notify = make(chan struct{})
 }
 
-func (w *wire) markDiff(orig, wirePos int) {
-	if w.firstDiff < 0 || orig < w.firstDiff {
-		w.firstDiff = orig
-		w.firstDiffWire = wirePos
+// compare extends the verified-equal prefix of (stream as written, stream as
+// delivered). Several faults can cancel (a dropped unit replayed in place), so the
+// divergence point is computed from the bytes, not from the fault list.
+func (w *wire) compare() {
+	if w.firstDiff >= 0 {
+		return
+	}
+	for w.cmpN < len(w.data) && w.cmpN < len(w.origAll) {
+		if w.data[w.cmpN] != w.origAll[w.cmpN] {
+			w.firstDiff, w.firstDiffWire = w.cmpN, w.cmpN
+			return
+		}
+		w.cmpN++
+	}
+}
+
+// finalize is called after the run: a delivered stream that is shorter or longer
+// than the written one diverges at the end of the common prefix.
+func (w *wire) finalize() {
+	w.compare()
+	if w.firstDiff < 0 && len(w.data) != len(w.origAll) {
+		w.firstDiff, w.firstDiffWire = w.cmpN, w.cmpN
 	}
 }
 
@@ -181,7 +201,6 @@ func (w *wire) write(b []byte) {
 				m = 1
 			}
 			out[pos] ^= m
-			w.markDiff(u.OrigStart+pos, len(w.data)+len(pre)+pos)
 		case "ephkey":
 			// replace the ECIES ephemeral public key of a handshake packet
 			if k != 0 || len(b) < 2+65 {
@@ -193,32 +212,26 @@ func (w *wire) write(b []byte) {
 			} else {
 				copy(out[2+1:2+65], pt)
 			}
-			w.markDiff(u.OrigStart+2, len(w.data)+len(pre)+2)
 		case "inject":
 			if len(f.Bytes) == 0 {
 				continue
 			}
 			ins := pos
 			out = append(append(append([]byte{}, out[:ins]...), f.Bytes...), out[ins:]...)
-			w.markDiff(u.OrigStart+ins, len(w.data)+len(pre)+ins)
 		case "replay":
 			if k == 0 {
 				continue
 			}
 			src := w.units[f.N%k]
 			pre = append(pre, src.orig...)
-			w.markDiff(u.OrigStart, len(w.data))
 		case "dup":
 			post = append(post, b...)
-			w.markDiff(u.OrigEnd, len(w.data)+len(pre)+len(out))
 		case "drop":
 			drop = true
-			w.markDiff(u.OrigStart, len(w.data))
 		case "trunc":
 			out = out[:min(pos, len(out))]
 			post = nil
 			w.truncated = true
-			w.markDiff(u.OrigStart+pos, len(w.data)+len(pre)+pos)
 		case "stall":
 			if w.stallOff < 0 {
 				w.stallOff = len(w.data) + len(pre) + pos
@@ -235,6 +248,8 @@ func (w *wire) write(b []byte) {
 	w.data = append(w.data, post...)
 	u.WireEnd = len(w.data)
 	w.units = append(w.units, u)
+	w.origAll = append(w.origAll, b...)
+	w.compare()
 	w.wireHash = w.wireHash.Bytes(b)
 }
 
@@ -318,7 +333,7 @@ func (c *SimConn) Read(p []byte) (int, error) {
 		}
 		if avail := limit - w.rpos; avail > 0 {
 			w.reads++
-			if w.yieldEach > 0 && w.reads%w.yieldEach == 0 {
+			if w.yieldEach > 0 && w.reads%(w.yieldEach+1) == 0 {
 				// let the scheduler interleave the other actors in the middle of a frame
 				w.mu.Unlock()
 				w.sched.Gate(c.name + ":r:yield")
